@@ -55,3 +55,69 @@ Theorem C06_capstone_nonvacuous_nocond :
     /\ metric_fltc ir_manhattan x y = Some f1 /\ metric_fltc ir_chebyshev x y = Some f2
     /\ metric_fltc ir_hamming x y = Some f3.
 Proof. exact capstone_nonvacuous_nocond. Qed.
+
+(* ---------------- identifiers with roundings that can underflow ----------------
+   [normal64 t] (Proofs/Binary64Agree.v) := t = 0 \/ / 2 ^ 1022 <= Rabs t: the EXACT real argument [t] of a rounding is zero
+   or in the normal range, so that rounding with and without gradual underflow agree.  It is asked only of the operations
+   that can underflow inexactly: the division by the length (gower), the product by 1/2 (non_intersection), each square
+   (squared_euclidean, euclidean).  The side conditions are written on the rounded-real intermediate values, which ARE the
+   values of the intermediate floats (C06_flt_refine): [rsum rnd64 (map2 (fun a b => Rabs (rnd64 (a - b))) X Y)] is the
+   value of the float `np.sum(np.fabs(x - y))`, [rnd64 (a - b)] that of an entry of `x - y`.
+   The sums, the differences and the final square root need no condition (the square root of a binary64 number is 0 or
+   >= 2^-537).  Without the condition the bound is FALSE in general: an underflowing square is rounded to 0 or to a multiple
+   of 2^-1074 with unbounded relative error. *)
+Theorem C06_capstone_gower : forall (x y : list PrimFloat.float) (f : PrimFloat.float),
+  Forall (fun a => ffin a = true) x -> Forall (fun a => ffin a = true) y -> length x = length y -> (1 <= length x)%nat ->
+  (Z.of_nat (length x) <= 2 ^ 53)%Z ->
+  metric_fltc ir_gower x y = Some f ->
+  normal64 (rsum rnd64 (map2 (fun a b => Rabs (rnd64 (a - b))) (map f2r x) (map f2r y)) / len (map f2r x)) ->
+  Rabs (f2r f - sp_gower (map f2r x) (map f2r y))
+  <= ((1 + u64) ^ (length x + 1) - 1) * sp_gower (map f2r x) (map f2r y).
+Proof. exact capstone_gower. Qed.
+
+Theorem C06_capstone_non_intersection : forall (x y : list PrimFloat.float) (f : PrimFloat.float),
+  Forall (fun a => ffin a = true) x -> Forall (fun a => ffin a = true) y -> length x = length y -> (1 <= length x)%nat ->
+  (Z.of_nat (length x) <= 2 ^ 53)%Z ->
+  metric_fltc ir_non_intersection x y = Some f ->
+  normal64 (/ 2 * rsum rnd64 (map2 (fun a b => Rabs (rnd64 (a - b))) (map f2r x) (map f2r y))) ->
+  Rabs (f2r f - sp_non_intersection (map f2r x) (map f2r y))
+  <= ((1 + u64) ^ (length x + 1) - 1) * sp_non_intersection (map f2r x) (map f2r y).
+Proof. exact capstone_non_intersection. Qed.
+
+Theorem C06_capstone_squared_euclidean : forall (x y : list PrimFloat.float) (f : PrimFloat.float),
+  Forall (fun a => ffin a = true) x -> Forall (fun a => ffin a = true) y -> length x = length y -> (1 <= length x)%nat ->
+  (Z.of_nat (length x) <= 2 ^ 53)%Z ->
+  metric_fltc ir_squared_euclidean x y = Some f ->
+  Forall (fun d => normal64 (d ^ 2)) (map2 (fun a b => rnd64 (a - b)) (map f2r x) (map f2r y)) ->
+  Rabs (f2r f - sp_squared_euclidean (map f2r x) (map f2r y))
+  <= ((1 + u64) ^ (length x + 2) - 1) * sp_squared_euclidean (map f2r x) (map f2r y).
+Proof. exact capstone_squared_euclidean. Qed.
+
+Theorem C06_capstone_euclidean : forall (x y : list PrimFloat.float) (f : PrimFloat.float),
+  Forall (fun a => ffin a = true) x -> Forall (fun a => ffin a = true) y -> length x = length y -> (1 <= length x)%nat ->
+  (Z.of_nat (length x) <= 2 ^ 53)%Z ->
+  metric_fltc ir_euclidean x y = Some f ->
+  Forall (fun d => normal64 (d ^ 2)) (map2 (fun a b => rnd64 (a - b)) (map f2r x) (map f2r y)) ->
+  Rabs (f2r f - sp_euclidean (map f2r x) (map f2r y))
+  <= ((1 + u64) ^ ((length x + 3) / 2 + 1) - 1) * sp_euclidean (map f2r x) (map f2r y).
+Proof. exact capstone_euclidean. Qed.
+
+(* the meaning of the side condition, and of the agreement it buys *)
+Theorem C06_capstone_normal64 : forall t : R,
+  normal64 t <-> (t = 0 \/ / 2 ^ 1022 <= Rabs t).
+Proof. exact (fun t => conj (fun H => H) (fun H => H)). Qed.
+
+Theorem C06_capstone_normal64_agree : forall t : R, normal64 t -> rnd64 t = rnd64x t.
+Proof. exact agree64_normal. Qed.
+
+(* non-vacuity: x = [0; 3], y = [4; 1]: all four checked evaluators are defined and all side conditions hold *)
+Theorem C06_capstone_nonvacuous_cond :
+  exists (x y : list PrimFloat.float) (f1 f2 f3 f4 : PrimFloat.float),
+    Forall (fun a => ffin a = true) x /\ Forall (fun a => ffin a = true) y /\ length x = length y /\ length x = 2%nat
+    /\ (Z.of_nat (length x) <= 2 ^ 53)%Z
+    /\ metric_fltc ir_gower x y = Some f1 /\ metric_fltc ir_non_intersection x y = Some f2
+    /\ metric_fltc ir_squared_euclidean x y = Some f3 /\ metric_fltc ir_euclidean x y = Some f4
+    /\ normal64 (rsum rnd64 (map2 (fun a b => Rabs (rnd64 (a - b))) (map f2r x) (map f2r y)) / len (map f2r x))
+    /\ normal64 (/ 2 * rsum rnd64 (map2 (fun a b => Rabs (rnd64 (a - b))) (map f2r x) (map f2r y)))
+    /\ Forall (fun d => normal64 (d ^ 2)) (map2 (fun a b => rnd64 (a - b)) (map f2r x) (map f2r y)).
+Proof. exact capstone_nonvacuous_cond. Qed.
